@@ -143,3 +143,24 @@ class Registered:
         for x in parts:
             if not isinstance(x, str):
                 raise TypeError(x)
+
+
+def first_value_by_truth(values):
+    # P9: a falsy first value is "not seen"
+    first = None
+    for v in values:
+        if not first:
+            first = v
+        elif type(v) is not type(first):
+            return None
+    return first
+
+
+def first_value_by_identity(values):
+    first = None
+    for v in values:
+        if first is None:
+            first = v
+        elif type(v) is not type(first):
+            return None
+    return first
